@@ -438,3 +438,7 @@ mod tests {
         decoder.finish().expect("Failed to finish decoder");
     }
 }
+
+#[cfg(kani)]
+#[path = "/verif/kani/arrow-ipc/reader/stream.rs"]
+mod verif_kani;
